@@ -33,6 +33,8 @@ Definition plus_bytes (s : Z) : nat :=
      | (k, v) :: d' => if list_Z_eqb [s] k then Z.to_nat v else go d'
      end) tk_PLUS_BYTES.
 
+Definition pad_trail (n : nat) (raw : list Z) : list Z := raw ++ repeat 0 (n - length raw).
+
 Section Lister.
 Variable tkw : list (list Z * list Z).
 Variable fl_str : list Z -> res (list Z).
@@ -131,9 +133,10 @@ Fixpoint detok_loop (lit com : bool) (rout : list Z) (skip : nat) (l : list Z) {
       if s =? 0 then Ok rout
       else if s =? 34 then detok_loop (negb lit) com (s :: rout) O r
       else if lmem [s] tk_NUMBER || lmem [s] tk_LINE_NUMBER then
-        let trail := firstn (plus_bytes s) r in
-        bind (detok_number s trail)
-             (fun t => detok_loop lit com (rev t ++ rout) (length trail) r)
+        (* trail = ins.read(ntrail), padded with NUL bytes when the stream ends inside the token *)
+        let raw := firstn (plus_bytes s) r in
+        bind (detok_number s (pad_trail (plus_bytes s) raw))
+             (fun t => detok_loop lit com (rev t ++ rout) (length raw) r)
       else if com || lit || ((32 <=? s) && (s <=? 126)) then detok_loop lit com (s :: rout) O r
       else if s =? 10 then detok_loop lit com (13 :: 10 :: rout) O r
       else if s <=? 9 then detok_loop lit com (s :: rout) O r
